@@ -146,7 +146,8 @@ def verify_function(w: World, specs: SpecSet, fq: str, timeout_ms: int = 10000, 
         r = res[ob.oid]
         rep.solver_s += r["time"]
         d = {"id": ob.oid, "func": ob.func, "kind": ob.kind, "clause": ob.clause, "line": ob.line,
-             "status": r["status"], "time": round(r["time"], 3), "backend": r["backend"]}
+             "status": r["status"], "time": round(r["time"], 3), "backend": r["backend"],
+             "trivial": bool(z3.is_true(z3.simplify(ob.goal)))}
         if r["status"] != "proved":
             d["reason"] = r.get("reason")
             d["failed_part"] = r.get("failed_part")
